@@ -47,7 +47,11 @@ def main():
         und = sorted(p for p, v in res.items() if v["exit"] == 2)
         own = d.name.split("-")[0]
         print("%-7s VIOLATION by %-18s undecided in %-12s %s" % (d.name, ",".join(viol) or "-", ",".join(und) or "-", "" if own in viol else ("(own property: %s)" % ("undecided" if own in und else "silent"))))
-        if not viol:
+        mp0 = d / "meta.json"
+        m0 = json.load(open(mp0)) if mp0.exists() else {}
+        # a change whose defect lives in run-time values (round-off, ties, library internals) has no positive static contradiction: for those,
+        # meta.json records static_verdict = "undecided" with the reason, and the requirement is that the owning property does NOT stay silent
+        if not viol and not (m0.get("static_verdict") == "undecided" and own in und):
             bad += 1
         mp = d / "meta.json"
         m = json.load(open(mp)) if mp.exists() else {}
